@@ -1272,7 +1272,7 @@ func runC15(args []string) error {
 	})
 
 	// reference: compiled Go, in batches
-	const batch = 1500
+	const batch = 400 // keeps the scratch directory of compiled binaries below 1 GB
 	for lo := 0; lo < n; lo += batch {
 		hi := lo + batch
 		if hi > n {
